@@ -61,10 +61,13 @@ pub proof fn ks_run_by_states(k: KStep, s: KAbs, n: nat, states: spec_fn(int) ->
 // StreamCipherBackend / StreamCipherClosure / StreamCipherCore are extracted from the pinned `cipher` crate
 // (contracts/dep_stream.py): their default methods and the Apply*/Write* drivers are verified text (D3).
 
-pub trait StreamCipherCounter {}
-impl StreamCipherCounter for u32 {}
-impl StreamCipherCounter for u64 {}
-impl StreamCipherCounter for u128 {}
+pub trait StreamCipherCounter: Sized {
+    spec fn cval(c: Self) -> int;
+    spec fn cfits(v: int) -> bool;
+}
+impl StreamCipherCounter for u32 { open spec fn cval(c: u32) -> int { c as int } open spec fn cfits(v: int) -> bool { 0 <= v <= u32::MAX } }
+impl StreamCipherCounter for u64 { open spec fn cval(c: u64) -> int { c as int } open spec fn cfits(v: int) -> bool { 0 <= v <= u64::MAX } }
+impl StreamCipherCounter for u128 { open spec fn cval(c: u128) -> int { c as int } open spec fn cfits(v: int) -> bool { 0 <= v <= u128::MAX } }
 
 pub trait StreamCipherSeekCore: StreamCipherCore {
     type Counter: StreamCipherCounter;
